@@ -57,6 +57,8 @@ PINS = {
     # the pandas-style facade (C17)
     "dataframe_from_by_keys": ("api", "DataFrameGroupBy._from_by_keys"),
     "series_from_by_keys": ("api", "SeriesGroupBy._from_by_keys"),
+    # cross-tabulation (C14; add_row_margin itself is tied by gen_add_row_margin)
+    "crosstab": ("core", "crosstab"),
 }
 
 # property -> the pins its models transcribe (a change to one of these functions must be carried over into the model of
@@ -76,6 +78,7 @@ BY_PROPERTY = {
     "C10": ["ema_adjusted", "ema_time_weighted", "ema_grouped", "ema_grouped_timed"],
     "C11": ["apply_gb_reduction"],
     "C12": ["group_func_wrap"],
+    "C14": ["crosstab"],
     "C15": ["find_nth", "find_first_or_last_n"],
     "C16": ["groupby_var"],
     "C17": ["dataframe_from_by_keys", "series_from_by_keys"],
